@@ -15,6 +15,7 @@ import (
 	"sync/atomic"
 	"time"
 
+	"github.com/gogo/protobuf/proto"
 	"github.com/hashicorp/memberlist"
 	"github.com/vx-labs/commitlog/stream"
 	"github.com/vx-labs/mqtt-protocol/encoder"
@@ -184,10 +185,18 @@ type nullTaps struct{}
 func (nullTaps) Run(ctx context.Context)                                         { <-ctx.Done() }
 func (nullTaps) Dispatch(ctx context.Context, s string, p *packet.Publish) error { bump(); return nil }
 
-// authentication: user name = mount point, password "ok"; session id derived from the connection name
-type harnessAuth struct{}
+// authentication: by default user name = mount point, password "ok"; after `authfile` / `authstatic` the REAL credential
+// store decides. The session id is always derived from the connection name.
+type harnessAuth struct{ b *brokerDomain }
 
-func (harnessAuth) Authenticate(ctx context.Context, m auth.ApplicationContext, t auth.TransportContext) (auth.Principal, error) {
+func (h harnessAuth) Authenticate(ctx context.Context, m auth.ApplicationContext, t auth.TransportContext) (auth.Principal, error) {
+	h.b.mu.Lock()
+	real := h.b.auth
+	h.b.mu.Unlock()
+	if real != nil {
+		p, err := real.Authenticate(ctx, m, t)
+		return auth.Principal{ID: "S" + t.RemoteAddress, MountPoint: p.MountPoint}, err
+	}
 	if string(m.Password) != "ok" {
 		return auth.Principal{}, errors.New("bad credentials")
 	}
@@ -308,6 +317,7 @@ type brokerDomain struct {
 	settleMs    int
 	vnow        int64 // virtual clock of the connections' read deadlines (ms)
 	realtime    bool
+	auth        auth.AuthenticationHandler // a real credential store (nil: the harness rule)
 	realLog     bool // the next `reset` gives every node a real commit-log store instead of the in-memory log
 	seq         int
 	runaway     bool // the broker never became quiet within the settle deadline: stop driving it
@@ -350,6 +360,7 @@ func (b *brokerDomain) reset(nn int) {
 	b.failed = map[uint64]bool{}
 	atomic.StoreInt64(&b.vnow, 0)
 	b.realtime = false
+	b.auth = nil
 	logger := zap.NewNop()
 	for i := 0; i < nn; i++ {
 		id := uint64(i + 1)
@@ -383,7 +394,7 @@ func (b *brokerDomain) reset(nn int) {
 		go w.Run(ctx, n.store)
 		proc := wasp.NewPacketProcessor(n.local, n.state, w, nullTaps{}, distributor, n.inflights)
 		go proc.Run(ctx)
-		n.manager = wasp.NewConnectionManager(harnessAuth{}, n.local, n.state, w, proc, n.inflights)
+		n.manager = wasp.NewConnectionManager(harnessAuth{b}, n.local, n.state, w, proc, n.inflights)
 		go n.manager.Run(ctx)
 		n.members = wasp.NewNodeMemberManager(id, n.store, n.state)
 		// gRPC endpoint of this node over an in-memory listener
@@ -470,6 +481,10 @@ func (b *brokerDomain) elapse(ms int64) {
 		return due[i].c.seq < due[j].c.seq
 	})
 	for _, d := range due {
+		// a will published by an earlier victim may have been delivered to this one, which re-arms its deadline
+		if !d.c.srv.due(now) {
+			continue
+		}
 		d.c.srv.Conn.SetReadDeadline(time.Now().Add(-time.Second))
 		bump()
 		b.settle()
@@ -479,18 +494,54 @@ func (b *brokerDomain) elapse(ms int64) {
 // collectGossip moves everything queued for broadcast on node i into the per-destination pending lists
 func (b *brokerDomain) collectGossip() {
 	for i, n := range b.nodes {
+		var batch [][]byte
 		for {
 			msgs := n.bq.GetBroadcasts(0, 1<<30)
 			if len(msgs) == 0 {
 				break
 			}
-			for j := range b.nodes {
-				if j != i {
-					n.pending[j] = append(n.pending[j], msgs...)
-				}
+			batch = append(batch, msgs...)
+		}
+		// the queue hands out longest-first, newest-first; the pending lists are kept in the order the changes were
+		// made (their stamps), so that "the k-th pending payload" means the same thing on every run
+		if b.failed[n.id] {
+			// a failed node gossips no more (its goroutines in this process still tear sessions down)
+			n.pending = map[int][][]byte{}
+			continue
+		}
+		sort.SliceStable(batch, func(x, y int) bool { return eventStamp(batch[x]) < eventStamp(batch[y]) })
+		for j := range b.nodes {
+			if j != i {
+				n.pending[j] = append(n.pending[j], batch...)
 			}
 		}
 	}
+}
+
+func eventStamp(b []byte) int64 {
+	ev := &api.StateBroadcastEvent{}
+	if err := proto.Unmarshal(b, ev); err != nil {
+		return 0
+	}
+	var m int64
+	up := func(a, d int64) {
+		if a > m {
+			m = a
+		}
+		if d > m {
+			m = d
+		}
+	}
+	for _, s := range ev.SessionMetadatas {
+		up(s.LastAdded, s.LastDeleted)
+	}
+	for _, s := range ev.Subscriptions {
+		up(s.LastAdded, s.LastDeleted)
+	}
+	for _, r := range ev.RetainedMessages {
+		up(r.LastAdded, r.LastDeleted)
+	}
+	return m
 }
 
 func (b *brokerDomain) deliverGossip(from, to int) int {
@@ -811,8 +862,8 @@ func (b *brokerDomain) renderInbox(c *bclient) string {
 		}
 	}
 	sort.Strings(out)
-	if len(out) > 1000 {
-		out = append(out[:1000], fmt.Sprintf("…+%d-more", len(out)-1000))
+	if len(out) > 3000 {
+		out = append(out[:3000], fmt.Sprintf("…+%d-more", len(out)-3000))
 	}
 	if closed {
 		out = append(out, "CLOSED")
@@ -913,6 +964,65 @@ func (b *brokerDomain) step(f []string) string {
 			will = parsePublishSpec(f[6])
 		}
 		res := c.sendRaw(encodeConnect(f[3], user, pass, atoi(f[5]), will))
+		return b.observe(res)
+	case f[0] == "authfile":
+		// authfile <name=fp:passfp[:mount]>…: CONNECTs are decided by the real file credential store from now on
+		tmp, err := os.CreateTemp("", "waspauth")
+		if err != nil {
+			return "tmp-err"
+		}
+		defer os.Remove(tmp.Name())
+		for _, l := range f[1:] {
+			fields := strings.Split(l, ":")
+			fields[0] = un(plainOf(fields[0]))
+			for i := 1; i < len(fields); i++ {
+				fields[i] = un(fields[i])
+			}
+			tmp.WriteString(strings.Join(fields, ":") + "\n")
+		}
+		tmp.Close()
+		h, err := auth.FileHandler(tmp.Name())
+		if err != nil {
+			return "loaderr"
+		}
+		b.mu.Lock()
+		b.auth = h
+		b.mu.Unlock()
+		return "ok"
+	case f[0] == "authstatic" && len(f) == 3:
+		h, err := auth.StaticHandler(un(f[1]), un(f[2]))
+		if err != nil {
+			return "err"
+		}
+		b.mu.Lock()
+		b.auth = h
+		b.mu.Unlock()
+		return "ok"
+	case f[0] == "connectas" && len(f) == 8:
+		// connectas <c> <node> <clientid> <user|_> <pass|_> <keepalive> <will|->   (user/pass as plain=fingerprint)
+		ni := atoi(f[2])
+		if ni < 0 || ni >= len(b.nodes) {
+			return "bad-op"
+		}
+		srvEnd, cliEnd := net.Pipe()
+		b.seq++
+		vc := &vconn{Conn: srvEnd, b: b}
+		c := &bclient{name: f[1], node: ni, seq: b.seq, srv: vc, conn: cliEnd, enc: encoder.New(), midCan: map[int32]int{}, canMid: map[int]int32{}}
+		if old, ok := b.clients[f[1]]; ok {
+			old.conn.Close()
+		} else {
+			b.order = append(b.order, f[1])
+			sort.Strings(b.order)
+		}
+		b.clients[f[1]] = c
+		go c.reader()
+		ctx := wasp.StoreLogger(context.Background(), zap.NewNop())
+		go b.nodes[ni].manager.Setup(ctx, transport.Metadata{Name: "tcp", RemoteAddress: f[1], Channel: vc})
+		var will *packet.Publish
+		if f[7] != "-" {
+			will = parsePublishSpec(f[7])
+		}
+		res := c.sendRaw(encodeConnect(f[3], un(plainOf(f[4])), un(plainOf(f[5])), atoi(f[6]), will))
 		return b.observe(res)
 	case f[0] == "open" && len(f) == 3:
 		// a connection without CONNECT (for raw byte streams)
